@@ -466,11 +466,15 @@ impl Parser {
             })?
             .clone();
 
-        self.consume(&SoftSemi, |_token| {
-            miette! {
-                "todo: expected a semicolon following import statement"
-            }
-        })?;
+        // like an expression statement, IMPORT may be directly followed by
+        // the closing brace of its block or by the end of the input
+        if !self.is_at_end() && !self.check(&RightBrace) {
+            self.consume(&SoftSemi, |_token| {
+                miette! {
+                    "todo: expected a semicolon following import statement"
+                }
+            })?;
+        }
 
         Ok(Stmt::Import(Arc::new(ImportStatement {
             import_token,
